@@ -2669,12 +2669,29 @@ class Mul(Binop):
     _operator_repr = "*"
 
     def _simplify_down(self):
+        # a * (b * x) is (a * b) * x only in (wrapping) integer arithmetic, and as
+        # long as the product is a valid literal for the dtype as well. Floating
+        # point multiplication is not associative.
         if (
             isinstance(self.right, Mul)
-            and isinstance(self.left, numbers.Number)
-            and isinstance(self.right.left, numbers.Number)
+            and type(self.left) is int
+            and type(self.right.left) is int
+            and isinstance(self.right.right, Expr)
         ):
-            return (self.left * self.right.left) * self.right.right
+            meta = self.right.right._meta
+            dtypes = (
+                meta.dtypes if is_dataframe_like(meta) else [getattr(meta, "dtype", None)]
+            )
+            literals = (self.left, self.right.left, self.left * self.right.left)
+            if all(
+                isinstance(dtype, np.dtype)
+                and dtype.kind in "iu"
+                and all(
+                    np.iinfo(dtype).min <= x <= np.iinfo(dtype).max for x in literals
+                )
+                for dtype in dtypes
+            ):
+                return literals[-1] * self.right.right
 
 
 class Pow(Binop):
